@@ -561,6 +561,9 @@ func Families(tier string) []Family {
 			{"string", "fromenv", "", "MiXed", "def", "x", "y"},
 			{"int", "5", "5x", "+5", "7", "3", "4"},
 			{"float", "2.5", "x", "2.5E0", "7.5", "1.5", "3"},
+			// numerals that have the right shape and are out of range are invalid text all the same
+			{"float", "-0.5", "1e999", "1e-999", "7.5", "1.5", "3"},
+			{"int", "-5", "99999999999999999999", "007", "7", "3", "4"},
 			{"sopt", "fromenv", "", "MiXed", "def", "x", "y"},
 			{"iopt", "5", "5x", "+5", "7", "3", "4"},
 			{"fopt", "2.5", "x", "2.5E0", "7.5", "1.5", "3"},
